@@ -72,6 +72,39 @@ func buildLibScaled(s *exact.Shape, ic IdxCfg, closed bool, sc float64) libShape
 // scales used by the scaled variants (all powers of two)
 var libScales = []float64{1.0 / (1 << 17), 1.0 / (1 << 24), 1.0 / (1 << 30), 1 << 12}
 
+// FEnc is an exact affine encoding applied on the library side only:
+// coordinate = T + Sc * lattice value, with Sc a power of two and T such
+// that the sum is exactly representable.  The exact oracle, which is
+// invariant under such maps, keeps working on the lattice values.  This
+// reaches, for instance, rings on a 1/1024 grid next to 2^20.
+type FEnc struct {
+	Name   string
+	Sc     float64
+	TX, TY float64
+}
+
+// Pt applies the encoding.
+func (e FEnc) Pt(p exact.P) geometry.Point {
+	q := gpt(p)
+	return geometry.Point{X: q.X*e.Sc + e.TX, Y: q.Y*e.Sc + e.TY}
+}
+
+// Pts applies the encoding to a list.
+func (e FEnc) Pts(ps []exact.P) []geometry.Point {
+	out := make([]geometry.Point, len(ps))
+	for i, p := range ps {
+		out[i] = e.Pt(p)
+	}
+	return out
+}
+
+var fineEncs = []FEnc{
+	{"2^-10 at (2^20-4, -(2^20-4))", 1.0 / 1024, 1<<20 - 4, -(1<<20 - 4)},
+	{"2^-17 at (3,-5)", 1.0 / (1 << 17), 3, -5},
+	{"2^-20 at origin", 1.0 / (1 << 20), 0, 0},
+	{"2^-6 at (-(2^20-64), 2^19)", 1.0 / 64, -(1<<20 - 64), 1 << 19},
+}
+
 func gIntersects(a, b libShape) bool {
 	switch v := b.g.(type) {
 	case geometry.Point:
